@@ -22,8 +22,32 @@ def setup(ctx):
     te = monitors_tedmd.install()
 
 
+REVERSIBLE = {}
+
+
 def data(rng):
     d, m = int(rng.integers(1, 4)), int(rng.integers(3, 10))
+    REVERSIBLE.clear()
+    if rng.random() < 0.12:
+        # (nearly) reversible data: every transition a -> b comes with its reverse b' -> a', where a', b' are copies of a, b - exact,
+        # perturbed in the 6th-9th digit, or stored in single precision.  Psi_x Psi_y^T is (nearly, not exactly) symmetric
+        k = int(rng.integers(2, 5))
+        A, B = rng.uniform(-1.5, 1.5, size=(d, k)), rng.uniform(-1.5, 1.5, size=(d, k))
+        u = int(rng.integers(0, 3))
+        if u == 0:
+            A2, B2 = A.copy(), B.copy()
+        elif u == 1:
+            q = float(10 ** rng.uniform(-9, -5.5))
+            A2, B2 = A * (1 + q * rng.standard_normal(A.shape)), B * (1 + q * rng.standard_normal(B.shape))
+        else:
+            A2, B2 = A.astype(np.float32).astype(float), B.astype(np.float32).astype(float)
+        Z = np.concatenate([A, B, B2, A2], axis=1)
+        m = 4 * k
+        REVERSIBLE['pair'] = (np.concatenate([np.arange(0, k), np.arange(2 * k, 3 * k)]), np.concatenate([np.arange(k, 2 * k), np.arange(3 * k, 4 * k)]))
+        bl = c15.rand_basis(rng, d)
+        while len(bl) < 2:
+            bl = c15.rand_basis(rng, d)
+        return d, m, Z, bl
     Z = gen.data_matrix(rng, (d, m))
     if rng.random() < 0.3:  # a trajectory of a contracting linear map: slowly varying snapshots
         A = 0.9 * np.linalg.qr(rng.standard_normal((d, d)))[0]
@@ -43,6 +67,26 @@ def admissible(ctx, Z, bl, pairs):
 
 
 def index_sets(rng, m):
+    a, b = index_sets_(rng, m)
+    if rng.random() < 0.12 and len(set(map(int, a))) == len(a) and len(set(map(int, b))) == len(b):
+        # the same selections as boolean masks over the snapshots (what NumPy comparisons on a time axis produce): the k-th selected
+        # x snapshot pairs with the k-th selected y snapshot
+        ma, mb = np.zeros(m, dtype=bool), np.zeros(m, dtype=bool)
+        ma[np.asarray(a, dtype=int)] = True
+        mb[np.asarray(b, dtype=int)] = True
+        return ma, mb
+    if rng.random() < 0.1:
+        t = [np.int32, np.uint8, np.int16, np.uint64][int(rng.integers(0, 4))]
+        return np.asarray(a).astype(t), np.asarray(b).astype(t)
+    return a, b
+
+
+def as_ints(a):
+    a = np.asarray(a)
+    return [int(v) for v in (np.flatnonzero(a) if a.dtype == bool else a)]
+
+
+def index_sets_(rng, m):
     k = int(rng.integers(0, 3))
     if k == 0:
         lag = int(rng.integers(1, max(2, m // 2)))
@@ -68,6 +112,8 @@ def w_hosvd(ctx, rng, idx):
     thr = [1e-8, 1e-10, 1e-2][int(rng.integers(0, 3))]
     npairs = int(rng.integers(1, 4))
     pairs = [index_sets(rng, m) for _ in range(npairs)]
+    if 'pair' in REVERSIBLE:
+        pairs[int(rng.integers(0, npairs))] = REVERSIBLE['pair']
     u = rng.random()
     if npairs > 1 and u < 0.35:
         # consecutive pairs sharing their x-index set (a lag scan over a fixed window: same array object or an equal copy),
@@ -85,7 +131,7 @@ def w_hosvd(ctx, rng, idx):
     if not admissible(ctx, Z, bl, pairs):
         return
     xs, ys = [p[0] for p in pairs], [p[1] for p in pairs]
-    ctx.describe({'op': 'amuset_hosvd', 'd': d, 'm': m, 'modes': [[type(f).__name__ for f in fl] for fl in bl], 'threshold': thr, 'pairs': [[list(map(int, a)), list(map(int, b))] for a, b in pairs]})
+    ctx.describe({'op': 'amuset_hosvd', 'd': d, 'm': m, 'modes': [[type(f).__name__ for f in fl] for fl in bl], 'threshold': thr, 'pairs': [[as_ints(a), as_ints(b)] for a, b in pairs]})
     okb, rb = call('tedmd.amuset_hosvd', te.amuset_hosvd, Z, xs, ys, bl, prop=P, tags=['batch'], refusals=(np.linalg.LinAlgError,), threshold=thr)
     singles = []
     for (a, b) in pairs:
@@ -115,6 +161,8 @@ def w_hocur(ctx, rng, idx):
     bl = c15.array_capable(rng, bl, d)
     npairs = int(rng.integers(1, 3))
     pairs = [index_sets(rng, m) for _ in range(npairs)]
+    if 'pair' in REVERSIBLE:
+        pairs[int(rng.integers(0, npairs))] = REVERSIBLE['pair']
     if not admissible(ctx, Z, bl, pairs) or monitors_transform.data_tensor_class(Z, bl) != 'regular':
         ctx.skip('amuset_hocur_data_tensor_without_spectral_gap')
         return
